@@ -1,19 +1,25 @@
 import Tw.Model.Packer
 import Tw.Proofs.Packer
+import Tw.Proofs.PackerFields
+import Tw.Proofs.PackerSeq
 import Tw.Gen.Packer
 
 /-!
 # C08 — variable-length integers and packed fields round-trip canonically
 
-Property theorems only (helper lemmas live in `Tw/Proofs/Packer.lean`).  The model is
+Property theorems only (helper lemmas live in `Tw/Proofs/Packer*.lean`).  The model is
 `Tw/Model/Packer.lean`; it is tied to `packer/src/lib.rs` by the `packer` correspondence domain
 (exhaustive over all 2^32 integers in the thorough tier) and by the literal ties below.
+An `i32` is an `Int` satisfying `inI32`; a byte string is a `List UInt8`; `readInt bs = none` is
+`Err(UnexpectedEnd)`.
 -/
 namespace Tw.Props.C08
 open Tw.Packer
 
-/-- Tie to the source: the integer literals of `read_int`, in source order, are the ones the model
-was written against (masks `0x3f`, `0x80`, `0xf0`, `0x7f`, shifts `6 + 7*i`, 4 iterations). -/
+/-! ## Ties to the source -/
+
+/-- The integer literals of `read_int`, in source order, are the ones the model was written
+against (masks `0x3f`, `0x80`, `0xf0`, `0x7f`, shifts `6 + 7*i`, 4 iterations). -/
 theorem tie_read_int :
     Tw.Gen.Packer.lits_read_int = [0, 1, 6, 1, 63, 0, 4, 128, 0, 1, 3, 240, 0, 127, 6, 7, 1, 0] := by
   decide
@@ -23,6 +29,8 @@ theorem tie_write_int :
 
 theorem tie_finish : Tw.Gen.Packer.lits_finish = [4, 0] ∧ Tw.Gen.Packer.lits_new_from_demo = [4, 0] := by
   decide
+
+/-! ## Integers -/
 
 /-- Every 32-bit integer is packed into one to five bytes … -/
 theorem writeInt_length (v : Int) : 1 ≤ (writeInt v).length ∧ (writeInt v).length ≤ 5 :=
@@ -34,8 +42,66 @@ theorem readInt_writeInt (v : Int) (h : inI32 v) (rest : List UInt8) :
     readInt (writeInt v ++ rest) = some (v, rest, []) :=
   Tw.Packer.readInt_writeInt v h rest
 
--- non-vacuity: the hypotheses are met by the extreme values, and the statement computes
+/-- Canonicity: whenever decoding succeeds, the consumed bytes `c` (1 to 5 of them) are a prefix
+of the input, the value is a 32-bit integer, decoding is warning-free **exactly when** `c` is the
+packer's encoding of the value, and no shorter encoding of the value exists than the canonical one
+(`(writeInt v).length ≤ c.length` for every byte string `c` that decodes to `v`). -/
+theorem readInt_canonical (bs : List UInt8) (v : Int) (rest : List UInt8) (ws : List Warning)
+    (h : readInt bs = some (v, rest, ws)) :
+    ∃ c, bs = c ++ rest ∧ 1 ≤ c.length ∧ c.length ≤ 5 ∧ inI32 v ∧
+      (ws = [] ↔ c = writeInt v) ∧ (writeInt v).length ≤ c.length :=
+  Tw.Packer.readInt_inv bs v rest ws h
+
+/-- Decoding fails only because the string ends too early: every byte present has its extend
+bit set and there are fewer than five of them (the empty string included). -/
+theorem readInt_fails_iff_truncated (bs : List UInt8) :
+    readInt bs = none ↔ (bs.length < 5 ∧ ∀ b ∈ bs, 128 ≤ b.toNat) :=
+  Tw.Packer.readInt_none_iff bs
+
+/-- For zero padding bits decoding yields the value `doc/int.md` prescribes (`docValue` is
+defined from the document's bit picture, independently of `readInt`). -/
+theorem readInt_documented_value (bs : List UInt8) (v : Int) (rest : List UInt8)
+    (ws : List Warning) (h : readInt bs = some (v, rest, ws))
+    (hpad : Warning.nonZeroIntPadding ∉ ws) :
+    ∃ c, bs = c ++ rest ∧ v = docValue c :=
+  Tw.Packer.readInt_doc bs v rest ws h hpad
+
+/-! ## Field sequences (strings, length-prefixed data, raw bytes, integers) -/
+
+/-- Packing well-formed fields into a buffer: it succeeds iff the encodings fit in the remaining
+capacity and then appends exactly the concatenated encodings; otherwise it returns
+`CapacityError` having written a prefix of the encodings that stays within the capacity. -/
+theorem packAll_spec (fs : List Field) (hwf : ∀ f ∈ fs, f.wf) (b : Buf) (hb : b.data.length ≤ b.cap) :
+    (totalLen fs ≤ b.remaining → packAll b fs = ({ b with data := b.data ++ encodeAll fs }, .ok)) ∧
+    (b.remaining < totalLen fs →
+      ∃ k, packAll b fs = ({ b with data := b.data ++ (encodeAll fs).take k }, .capacity) ∧
+        b.data.length + ((encodeAll fs).take k).length ≤ b.cap) :=
+  Tw.Packer.packAll_spec fs hwf b hb
+
+/-- What the packer wrote is read back identically, with nothing consumed beyond it and no
+warning. -/
+theorem unpackAll_encodeAll (fs : List Field) (hwf : ∀ f ∈ fs, f.wf) (rest : List UInt8) :
+    unpackAll (encodeAll fs ++ rest) (fs.map Field.kind) = (fs.map Field.value, true, rest, []) :=
+  Tw.Packer.unpackAll_encodeAll fs hwf rest
+
+/-- Reading never runs past what is there: after any single read (successful or not) the
+remaining input is a suffix of the previous input. -/
+theorem unpackOne_suffix (inp : List UInt8) (k : Kind) :
+    ∃ c, inp = c ++ (unpackOne inp k).2.1 :=
+  Tw.Packer.unpackOne_suffix inp k
+
+/-- Demo-mode `finish` warns iff at least four bytes or a non-zero byte remain. -/
+theorem finish_demo (rest : List UInt8) :
+    finishWarns true rest = true ↔ (4 ≤ rest.length ∨ ∃ b ∈ rest, b ≠ 0) := by
+  simp [finishWarns]
+
+/-! ## Non-vacuity -/
+
 example : inI32 (-2147483648) ∧ inI32 2147483647 := by decide
 example : readInt (writeInt (-2147483648) ++ [7]) = some (-2147483648, [7], []) := by decide
+example : readInt [0x80, 0x00] = some (0, [], [Warning.overlongIntEncoding]) := by decide
+example : (Field.str [65, 66]).wf ∧ (Field.data [1, 2, 3]).wf ∧ (Field.int (-5)).wf := by
+  refine ⟨?_, ?_, ?_⟩ <;> simp [Field.wf] <;> decide
+example : readInt [0xff, 0xff] = none := by decide
 
 end Tw.Props.C08
